@@ -1,5 +1,6 @@
 import Iauthd.Proto.Props
 import Iauthd.Proto.RenderHex
+import Iauthd.Proto.RefInvH
 /-
   Property C04 — "Replies affect only the client instance they were asked about" (model part).
 
@@ -13,6 +14,10 @@ import Iauthd.Proto.RenderHex
   * `C04_tag_readback`: the tag the daemon writes for an instance (`iauth_routing`) reads back
     (`iauth_validate_request`'s `strtol`/`strtoul`) as exactly that instance's id and serial, for every
     32-bit id and serial - so no two live instances share a tag.
+  * `C04_slots_alive`: for every history (and across every reload, `C04_reload_slots`), a service
+    slot that some stored request still waits for is never freed and handed to another service: its
+    reference counter is at least the number of requests waiting for it, so the reply handler
+    (`findRefSlot`, by slot and name) always looks at the service the query went to.
   The differential judge runs the real daemon with and without stray replies.
 -/
 namespace Iauthd.Properties
@@ -55,5 +60,23 @@ theorem C04_tag_injective (r r' : Req) (h1 : -2147483648 ≤ r.client) (h2 : r.c
   rw [h, b] at a
   simp only [Option.some.injEq, Prod.mk.injEq] at a
   exact ⟨a.1.symm, a.2.symm⟩
+
+
+/-- **every history**: whoever waits for a service slot finds the slot occupied and counted -/
+theorem C04_slots_alive (hasXq hasClass : Bool) (hdep : hasClass = true → hasXq = true) (ops : List Op)
+    (s' : State) (outs : List (List Bytes))
+    (h : runOps { hasXq := hasXq, hasClass := hasClass } ops = .ok (s', outs)) :
+    ∀ r ∈ s'.reqs, ∀ cli, r.xq = some cli → ∀ i, cli.ref.contains i = true →
+      ∃ srv, getSvc s'.svcs i = some srv ∧ 0 < srv.refs := by
+  have h0 : Refd ({ hasXq := hasXq, hasClass := hasClass } : State) := by
+    intro i; simp [getSvc, cnt]
+  have := runOps_refd ops _ (inv_init hasXq hasClass hdep) h0 s' outs h
+  intro r hr cli hx i hi
+  exact this.slot_alive hr hx hi
+
+/-- a reload (services added, removed, retyped) keeps the invariant -/
+theorem C04_reload_slots (s : State) (h : Refd s) (live new : Config) (first : Bool) :
+    Refd (applyConfig s live new first).1 :=
+  applyConfig_ref s live new first h
 
 end Iauthd.Properties
